@@ -117,6 +117,7 @@ def coq_build(check=None) -> dict:
             res['ok'] = False
             res['errors'].append(('constants', f'{type(e).__name__}: {e}'))
             # fall back to the last good Generated.v so the rest of the development can still be checked
+        os.makedirs(os.path.join(COQ, 'extracted'), exist_ok=True)
         if not os.path.exists(os.path.join(COQ, 'Makefile')):
             run(['coq_makefile', '-f', '_CoqProject', '-o', 'Makefile'], 60, cwd=COQ)
         rc, out, err, dt = run(['make', f'-j{NPROC}'], 1500, cwd=COQ)
